@@ -177,7 +177,7 @@ fn run_block(ctx: &RunCtx, tier: Tier) -> RunOut {
         // family S around m
         let base = x as i128 * 1000;
         let deltas: Vec<i128> = match tier {
-            Tier::Thorough => (-1001..=1001).collect(),
+            Tier::Thorough => (-10_001..=10_001).collect(),
             Tier::Quick => vec![-1001, -1000, -999, -501, -500, -499, -1, 0, 1, 499, 500, 501, 999, 1000, 1001],
         };
         for d in deltas {
@@ -344,7 +344,7 @@ fn parts(tier: Tier) -> Vec<PartDef> {
         PartDef::new(
             "conversion-roundtrip-truncation",
             Cfg::new("C19/conv"),
-            json!({"family_M": family_m().len(), "deltas_around_each_m_ns": tier.pick("15 boundary offsets", "-1001..=1001"), "epoch_neighbourhood_ns": "+-0..5000",
+            json!({"family_M": family_m().len(), "deltas_around_each_m_ns": tier.pick("15 boundary offsets", "-10001..=10001"), "epoch_neighbourhood_ns": "+-0..5000",
                    "extremes": "+-2^63us, +-2^64us with +-{0,1,999,1000,1001} ns", "blocks": NB, "exploration": "complete enumeration of the families"}),
             move |ctx| run_block(ctx, tier),
         ),
